@@ -74,6 +74,23 @@ async fn gate_handler(rq: RequestContext<Arc<World>>, p: Path<IdPath>) -> Result
     Ok(HttpResponseOk(IdBody { id, request_id: rq.request_id.clone() }))
 }
 
+/// Like gate_handler, but gives its RequestContext away before it starts waiting.
+async fn gate_dropctx_handler(rq: RequestContext<Arc<World>>, p: Path<IdPath>) -> Result<HttpResponseOk<IdBody>, HttpError> {
+    let world = rq.context().clone();
+    let request_id = rq.request_id.clone();
+    let id = p.into_inner().id;
+    drop(rq);
+    let mut g = DropGuard { world: world.clone(), id: id.clone(), done: false };
+    world.board.post("entered", &id);
+    let sem = world.gate(&id);
+    let permit = sem.acquire().await.expect("gate closed");
+    permit.forget();
+    tokio::task::yield_now().await;
+    g.done = true;
+    world.board.post("completed", &id);
+    Ok(HttpResponseOk(IdBody { id, request_id }))
+}
+
 async fn panic_handler(rq: RequestContext<Arc<World>>, p: Path<IdPath>) -> Result<HttpResponseOk<IdBody>, HttpError> {
     let world = rq.context().clone();
     let id = p.into_inner().id;
@@ -108,6 +125,7 @@ pub fn api() -> ApiDescription<Arc<World>> {
     let m = http::Method::GET;
     let ct = "application/json";
     api.register(ApiEndpoint::new("gate".into(), gate_handler, m.clone(), ct, "/gate/{id}", ApiEndpointVersions::All)).unwrap();
+    api.register(ApiEndpoint::new("gated".into(), gate_dropctx_handler, m.clone(), ct, "/gated/{id}", ApiEndpointVersions::All)).unwrap();
     api.register(ApiEndpoint::new("panic".into(), panic_handler, m.clone(), ct, "/panic/{id}", ApiEndpointVersions::All)).unwrap();
     api.register(ApiEndpoint::new("big".into(), big_handler, m.clone(), ct, "/big/{id}", ApiEndpointVersions::All)).unwrap();
     api.register(ApiEndpoint::new("health".into(), health_handler, m, ct, "/health", ApiEndpointVersions::All)).unwrap();
@@ -131,6 +149,8 @@ pub enum Kind {
     Gate,
     Panic,
     Big,
+    /// gate handler that drops its RequestContext before waiting
+    GateDrop,
 }
 
 #[derive(Clone, Copy, Debug, PartialEq, Eq, Hash, PartialOrd, Ord)]
@@ -204,7 +224,7 @@ impl WorldCfg {
         WorldCfg {
             mode: if v["mode"] == json!("Detached") { HandlerTaskMode::Detached } else { HandlerTaskMode::CancelOnDisconnect },
             rt: if v["runtime"].as_str().unwrap_or("").starts_with("Current") { RtKind::CurrentThread } else { RtKind::MultiThread(2) },
-            kinds: v["clients"].as_array().unwrap().iter().map(|k| match k.as_str().unwrap() { "Panic" => Kind::Panic, "Big" => Kind::Big, _ => Kind::Gate }).collect(),
+            kinds: v["clients"].as_array().unwrap().iter().map(|k| match k.as_str().unwrap() { "Panic" => Kind::Panic, "Big" => Kind::Big, "GateDrop" => Kind::GateDrop, _ => Kind::Gate }).collect(),
             with_shutdown: v["with_shutdown"].as_bool().unwrap_or(false),
             with_half: v["with_half"].as_bool().unwrap_or(true),
         }
@@ -299,6 +319,7 @@ fn req_bytes(kind: Kind, id: &str) -> Vec<u8> {
         Kind::Gate => "gate",
         Kind::Panic => "panic",
         Kind::Big => "big",
+        Kind::GateDrop => "gated",
     };
     format!("GET /{p}/{id} HTTP/1.1\r\nhost: h\r\nx-marker: {id}\r\n\r\n").into_bytes()
 }
@@ -471,7 +492,7 @@ pub fn run_history(cfg: &WorldCfg, events: &[Ev], shutdown_window: Duration) -> 
                         o => json!(format!("{o:?}")),
                     };
                     match kind {
-                        Kind::Gate => {
+                        Kind::Gate | Kind::GateDrop => {
                             let ok = matches!(&r, ReadOutcome::Resp(r) if r.status == 200 && r.json().map(|j| j["id"] == json!(ids[i])).unwrap_or(false)
                                 && r.header_str("x-request-id") == r.json().and_then(|j| j["request_id"].as_str().map(|s| s.to_string())));
                             if !ok {
